@@ -27,22 +27,23 @@ Lemma istep_peek p : istep (IPeek p) =
   let '(o, p', ev) := ipk_next (inext (S ((if pk_has p then 1 else 0) + isize (pk_in p)))) p in
   (o, IPeek p', ev).
 Proof. reflexivity. Qed.
-Lemma istep_map g p : istep (IMap g p) =
-  let '(o, p', ev) := imap (inext (S (isize p))) g p in (o, IMap g p', ev).
+Lemma istep_map g fl c p : istep (IMap g fl c p) =
+  let '(o, (c', p'), ev) := imap (inext (S (isize p))) g fl c p in (o, IMap g fl c' p', ev).
 Proof. reflexivity. Qed.
 Lemma istep_first x p : istep (IFirst x p) =
   let '(o, (x', p'), ev) := ifirst (inext (S (isize p))) x p in (o, IFirst x' p', ev).
 Proof. reflexivity. Qed.
-Lemma istep_while f d p : istep (IWhile f d p) =
-  let '(o, (d', p'), ev) := iwhile (inext (S (isize p))) f d p in (o, IWhile f d' p', ev).
+Lemma istep_while f fl c d p : istep (IWhile f fl c d p) =
+  let '(o, (c', d', p'), ev) := iwhile (inext (S (isize p))) f fl c d p in
+  (o, IWhile f fl c' d' p', ev).
 Proof. reflexivity. Qed.
 Lemma istep_compact r fi pv p : istep (ICompact r fi pv p) =
   let '(o, (f', pv', p'), ev) := icompact (inext (S (isize p))) (S (S (isize p))) r fi pv p in
   (o, ICompact r f' pv' p', ev).
 Proof. reflexivity. Qed.
-Lemma istep_filter k p : istep (IFilter k p) =
-  let '(o, p', ev) := ifilter (inext (S (isize p))) (S (S (isize p))) k p in
-  (o, IFilter k p', ev).
+Lemma istep_filter k fl c p : istep (IFilter k fl c p) =
+  let '(o, (c', p'), ev) := ifilter (inext (S (isize p))) (S (S (isize p))) k fl c p in
+  (o, IFilter k fl c' p', ev).
 Proof. reflexivity. Qed.
 Lemma ilstep_chunk n p : ilstep (IChunk n p) =
   let '(o, p', ev) := ichunk (inext (S (2 * isize p))) (S (S (2 * isize p))) n p in
@@ -85,16 +86,39 @@ Section RunCount.
   Qed.
 End RunCount.
 
+(* the same for families with a call counter [c] that plays no role in the count *)
+Section RunCountC.
+  Variables (X : Type) (mk : nat -> X -> irun_st) (stp : X -> X * nat) (id : nat).
+  Hypothesis Hstep : forall c w, exists o ev c',
+    irun_next (mk c w) = (o, mk c' (fst (stp w)), ev) /\ stops o = false /\
+    count_next id ev = snd (stp w).
+
+  Lemma run_count_c ids : forall k c w log,
+    count_next id (snd (irun_steps ids (mk c w) log (map CNext (repeat true k))))
+    = (count_next id log + tot X stp k w)%nat.
+  Proof.
+    induction k as [|k IH]; intros c w log; simpl; [lia|].
+    destruct (Hstep c w) as (o & ev & c' & E & Hs & Hc). rewrite E, Hs.
+    specialize (IH c' (fst (stp w)) (log ++ ev)).
+    destruct (irun_steps ids (mk c' (fst (stp w))) (log ++ ev) (map CNext (repeat true k)))
+      as [r l].
+    simpl in *. rewrite IH, count_next_app, Hc. lia.
+  Qed.
+End RunCountC.
+
 Lemma count_next_one id : count_next id [SevNext id] = 1%nat.
 Proof. exact (count_next_pulls id 1). Qed.
 
 Lemma results_den cfg p k :
-  iter_supported p = true -> dom p ->
+  iter_supported p = true -> dom p -> no_panics p = true ->
   results (run_iter_cfg cfg p (ksteps k)) = expect (den p) k.
 Proof.
-  intros Hs Hd. rewrite (iter_steps_den cfg p (repeat true k) Hs Hd), repeat_length.
+  intros Hs Hd Hnp. rewrite (iter_steps_den cfg p (repeat true k) Hs Hd Hnp), repeat_length.
   reflexivity.
 Qed.
+
+Lemma np_cb fl (b : bool) : cb_panics fl = false -> negb (cb_panics fl) && b = b.
+Proof. intros H; rewrite H. reflexivity. Qed.
 
 (* ================= WithPeek used through Next, Map: one pull per call ================= *)
 Section MapPeek.
@@ -105,17 +129,19 @@ Section MapPeek.
   Proof. intros H. induction k as [|k IH]; intros w; simpl; [reflexivity|]. rewrite H, IH. lia. Qed.
 
   Theorem map_pulls_exact cfg g fl l k :
+    cb_panics fl = false ->
     let run := run_iter_cfg cfg (inl (ZMap g fl (ZSrc id (SSlice l)))) (ksteps k) in
     count_next id (ro_log run) = k /\ results run = expect (map IZ (map (fn_eval g) l)) k.
   Proof.
-    intros run. split; [|apply results_den; [reflexivity|exact I]].
+    intros Hfl run.
+    split; [|apply results_den; [reflexivity|exact I|simpl; rewrite Hfl; reflexivity]].
     unfold run. rewrite ro_log_steps. simpl pipe_ids. simpl irun_init.
-    rewrite (run_count (list Z) (fun a => RZ (IMap g (ISrc id (ISlice a))))
-                       (fun a => (tl a, 1%nat)) id).
+    rewrite (run_count_c (list Z) (fun c a => RZ (IMap g fl c (ISrc id (ISlice a))))
+                         (fun a => (tl a, 1%nat)) id).
     - rewrite tot_const by reflexivity. reflexivity.
-    - intros a. unfold irun_next. rewrite istep_map. unfold imap. cbn [isize].
-      rewrite inext_slice.
-      destruct a as [|x t]; cbn [slice_nx fst snd tl]; eexists; eexists;
+    - intros c a. unfold irun_next. rewrite istep_map. unfold imap. cbn [isize].
+      rewrite inext_slice. rewrite (panics_now_false fl c Hfl).
+      destruct a as [|x t]; cbn [slice_nx fst snd tl]; eexists; eexists; eexists;
         (split; [reflexivity|split; [reflexivity|apply count_next_one]]).
   Qed.
 
@@ -123,7 +149,7 @@ Section MapPeek.
     let run := run_iter_cfg cfg (inl (ZPeek (ZSrc id (SSlice l)))) (ksteps k) in
     count_next id (ro_log run) = k /\ results run = expect (map IZ l) k.
   Proof.
-    intros run. split; [|apply results_den; [reflexivity|exact I]].
+    intros run. split; [|apply results_den; [reflexivity|exact I|reflexivity]].
     unfold run. rewrite ro_log_steps. simpl pipe_ids. simpl irun_init.
     rewrite (run_count (list Z) (fun a => RZ (IPeek (mkPk false 0 (ISrc id (ISlice a)))))
                        (fun a => (tl a, 1%nat)) id).
@@ -156,7 +182,7 @@ Section First.
     count_next id (ro_log run) = Nat.min k (Z.to_nat n) /\
     results run = expect (map IZ (firstn (Z.to_nat n) l)) k.
   Proof.
-    intros run. split; [|apply results_den; [reflexivity|exact I]].
+    intros run. split; [|apply results_den; [reflexivity|exact I|reflexivity]].
     unfold run. rewrite ro_log_steps. simpl pipe_ids. simpl irun_init.
     pose (mk := fun w : Z * list Z => RZ (IFirst (fst w) (ISrc id (ISlice (snd w))))).
     assert (Hstep : forall w, exists o ev,
@@ -215,25 +241,29 @@ Section While.
   Qed.
 
   Theorem while_pulls_exact cfg fl l k :
+    cb_panics fl = false ->
     let run := run_iter_cfg cfg (inl (ZWhile f fl (ZSrc id (SSlice l)))) (ksteps k) in
     count_next id (ro_log run) = while_pulls l k /\
     results run = expect (map IZ (takewhile (pred_eval f) l)) k.
   Proof.
-    intros run. split; [|apply results_den; [reflexivity|exact I]].
+    intros Hfl run.
+    split; [|apply results_den; [reflexivity|exact I|simpl; rewrite Hfl; reflexivity]].
     unfold run. rewrite ro_log_steps. simpl pipe_ids. simpl irun_init.
-    pose (mk := fun w : bool * list Z => RZ (IWhile f (fst w) (ISrc id (ISlice (snd w))))).
-    assert (Hstep : forall w, exists o ev,
-      irun_next (mk w) = (o, mk (fst (while_stp w)), ev) /\ stops o = false /\
+    pose (mk := fun (c : nat) (w : bool * list Z) =>
+                  RZ (IWhile f fl c (fst w) (ISrc id (ISlice (snd w))))).
+    assert (Hstep : forall c w, exists o ev c',
+      irun_next (mk c w) = (o, mk c' (fst (while_stp w)), ev) /\ stops o = false /\
       count_next id ev = snd (while_stp w)).
-    { intros [d a]. unfold mk, irun_next. cbn [fst snd]. rewrite istep_while.
+    { intros c [d a]. unfold mk, irun_next. cbn [fst snd]. rewrite istep_while.
       unfold iwhile, while_stp. destruct d.
-      - cbn [fst snd]. eexists; eexists. split; [reflexivity|]. split; reflexivity.
+      - cbn [fst snd]. eexists; eexists; eexists. split; [reflexivity|]. split; reflexivity.
       - cbn [isize]. rewrite inext_slice. destruct a as [|y t]; cbn [slice_nx].
-        + cbn [fst snd]. eexists; eexists.
+        + cbn [fst snd]. eexists; eexists; eexists.
           split; [reflexivity|split; [reflexivity|apply count_next_one]].
-        + destruct (pred_eval f y); cbn [fst snd]; eexists; eexists;
+        + rewrite (panics_now_false fl c Hfl).
+          destruct (pred_eval f y); cbn [fst snd]; eexists; eexists; eexists;
             (split; [reflexivity|split; [reflexivity|apply count_next_one]]). }
-    pose proof (run_count _ mk while_stp id Hstep (sort_ids [id]) k (false, l) []) as Hc.
+    pose proof (run_count_c _ mk while_stp id Hstep (sort_ids [id]) k O (false, l) []) as Hc.
     unfold mk in Hc. cbn [fst snd] in Hc. rewrite Hc, while_tot. reflexivity.
   Qed.
 End While.
@@ -368,7 +398,7 @@ Section Compact.
     count_next id (ro_log run) = compact_pos l k /\
     results run = expect (map IZ (spec_compact (rel_eval r) l)) k.
   Proof.
-    intros run. split; [|apply results_den; [reflexivity|exact I]].
+    intros run. split; [|apply results_den; [reflexivity|exact I|reflexivity]].
     unfold run. rewrite ro_log_steps. simpl pipe_ids. simpl irun_init.
     pose proof (run_count _ compact_mk compact_stp id compact_step (sort_ids [id]) k
                           (true, 0, l) []) as Hc.
@@ -380,7 +410,8 @@ End Compact.
 
 (* ================= Filter, every k ================= *)
 Section Filter.
-  Variables (id : nat) (keep : pred).
+  Variables (id : nat) (keep : pred) (fl : failing).
+  Hypothesis Hfl : cb_panics fl = false.
 
   Fixpoint fstep (a : list Z) : list Z * nat :=
     match a with
@@ -388,27 +419,30 @@ Section Filter.
     | x :: t => if pred_eval keep x then (t, 1%nat) else let '(w, m) := fstep t in (w, S m)
     end.
 
-  Lemma ifilter_slice : forall a n, (length a < n)%nat ->
-    exists o, ifilter (slice_nx id) n keep a = (o, fst (fstep a), pulls id (snd (fstep a)))
+  Lemma ifilter_slice : forall a n c, (length a < n)%nat ->
+    exists o c', ifilter (slice_nx id) n keep fl c a
+                 = (o, (c', fst (fstep a)), pulls id (snd (fstep a)))
               /\ o <> Pan /\ o <> Out.
   Proof.
-    induction a as [|x t IH]; intros n Hn; (destruct n as [|n]; [simpl in Hn; lia|]); simpl.
-    - exists End. repeat split; discriminate.
-    - destruct (pred_eval keep x); [exists (Item x); repeat split; discriminate|].
-      destruct (IH n ltac:(simpl in Hn; lia)) as (o & E & H1 & H2).
-      rewrite E. destruct (fstep t) as [w m]. simpl. exists o. repeat split; auto.
+    induction a as [|x t IH]; intros n c Hn; (destruct n as [|n]; [simpl in Hn; lia|]); simpl.
+    - exists End, c. repeat split; discriminate.
+    - rewrite (panics_now_false fl c Hfl).
+      destruct (pred_eval keep x); [exists (Item x), (S c); repeat split; discriminate|].
+      destruct (IH n (S c) ltac:(simpl in Hn; lia)) as (o & c' & E & H1 & H2).
+      rewrite E. destruct (fstep t) as [w m]. simpl. exists o, c'. repeat split; auto.
   Qed.
 
-  Lemma filter_step : forall a, exists o ev,
-    irun_next (RZ (IFilter keep (ISrc id (ISlice a))))
-    = (o, RZ (IFilter keep (ISrc id (ISlice (fst (fstep a))))), ev) /\ stops o = false /\
+  Lemma filter_step : forall c a, exists o ev c',
+    irun_next (RZ (IFilter keep fl c (ISrc id (ISlice a))))
+    = (o, RZ (IFilter keep fl c' (ISrc id (ISlice (fst (fstep a))))), ev) /\ stops o = false /\
     count_next id ev = snd (fstep a).
   Proof.
-    intros a. unfold irun_next. rewrite istep_filter. cbn [isize isrc_size].
+    intros c a. unfold irun_next. rewrite istep_filter. cbn [isize isrc_size].
     rewrite (ifilter_iso (slice_nx id) (inext (S (S (length a)))) (fun a => ISrc id (ISlice a))
-                         keep (fun a0 => inext_slice (S (length a)) id a0)).
-    destruct (ifilter_slice a (S (S (S (length a)))) ltac:(lia)) as (o & E & H1 & H2).
-    rewrite E. eexists; eexists. split; [reflexivity|]. split; [|apply count_next_pulls].
+                         keep fl (fun a0 => inext_slice (S (length a)) id a0)).
+    destruct (ifilter_slice a (S (S (S (length a)))) c ltac:(lia)) as (o & c' & E & H1 & H2).
+    rewrite E. eexists; eexists; exists c'. split; [reflexivity|].
+    split; [|apply count_next_pulls].
     destruct o; simpl; congruence.
   Qed.
 
@@ -437,15 +471,16 @@ Section Filter.
         cbn [fst snd] in *. lia.
   Qed.
 
-  Theorem filter_pulls_all cfg fl l k :
+  Theorem filter_pulls_all cfg l k :
     let run := run_iter_cfg cfg (inl (ZFilter keep fl (ZSrc id (SSlice l)))) (ksteps k) in
     count_next id (ro_log run) = filter_pos l k /\
     results run = expect (map IZ (filter (pred_eval keep) l)) k.
   Proof.
-    intros run. split; [|apply results_den; [reflexivity|exact I]].
+    intros run.
+    split; [|apply results_den; [reflexivity|exact I|simpl; rewrite Hfl; reflexivity]].
     unfold run. rewrite ro_log_steps. simpl pipe_ids. simpl irun_init.
-    pose proof (run_count _ (fun a => RZ (IFilter keep (ISrc id (ISlice a)))) fstep id filter_step
-                          (sort_ids [id]) k l []) as Hc.
+    pose proof (run_count_c _ (fun c a => RZ (IFilter keep fl c (ISrc id (ISlice a)))) fstep id
+                            filter_step (sort_ids [id]) k O l []) as Hc.
     cbv beta in Hc. rewrite Hc, filter_tot. reflexivity.
   Qed.
 End Filter.
@@ -535,7 +570,7 @@ Section Chunk.
     count_next id (ro_log run) = chunk_pulls (length l) k /\
     results run = expect (map IL (spec_chunk n l)) k.
   Proof.
-    intros run. split; [|apply results_den; [reflexivity|simpl; auto]].
+    intros run. split; [|apply results_den; [reflexivity|simpl; auto|reflexivity]].
     unfold run. rewrite ro_log_steps. simpl pipe_ids. simpl irun_init.
     pose proof (run_count _ (fun a => RL (IChunk n (ISrc id (ISlice a)))) chunk_stp id chunk_step
                           (sort_ids [id]) k l []) as Hc.
@@ -640,6 +675,8 @@ Section JoinFlatten.
   Proof. induction srcs as [|[i a] t IH]; simpl; auto. Qed.
   Lemma srcs_dom srcs : fold_right (fun p acc => dom_z p /\ acc) True (map src_pz srcs).
   Proof. induction srcs as [|[i a] t IH]; simpl; auto. Qed.
+  Lemma srcs_nopanic srcs : forallb no_panics_z (map src_pz srcs) = true.
+  Proof. induction srcs as [|[i a] t IH]; simpl; auto. Qed.
   Lemma srcs_den srcs : concat (map den_z (map src_pz srcs)) = concat (map snd srcs).
   Proof. induction srcs as [|[i a] t IH]; simpl; [reflexivity|]. rewrite IH. reflexivity. Qed.
 
@@ -653,7 +690,7 @@ Section JoinFlatten.
       pose proof (run_count _ (fun w => RZ (IJoin (map src_st w))) jstep id join_step
                             (sort_ids (pipe_ids (inl (ZJoin (map src_pz srcs))))) k srcs []) as Hc.
       cbv beta in Hc. rewrite Hc, join_tot. reflexivity.
-    - unfold run. rewrite results_den; [|apply srcs_supported|apply srcs_dom].
+    - unfold run. rewrite results_den; [|apply srcs_supported|apply srcs_dom|apply srcs_nopanic].
       simpl. rewrite srcs_den. reflexivity.
   Qed.
 
@@ -751,7 +788,7 @@ Section JoinFlatten.
       destruct (irun_steps _ (fl_mk (fst (jstep srcs))) ([] ++ ev) (map CNext (repeat true k)))
         as [r l].
       cbn [snd] in *. rewrite Hr, join_tot. simpl app. rewrite Hc. apply jstep_pulls.
-    - unfold run. rewrite results_den; [|apply srcs_supported|apply srcs_dom].
+    - unfold run. rewrite results_den; [|apply srcs_supported|apply srcs_dom|apply srcs_nopanic].
       simpl. rewrite srcs_den. reflexivity.
   Qed.
 End JoinFlatten.
